@@ -13,6 +13,7 @@ use serde_json::{json, Value};
 
 mod c17cmd;
 mod evalcmd;
+mod fmtcmd;
 mod parsecmd;
 mod manifestcmd;
 mod numop;
@@ -83,6 +84,7 @@ fn main() {
 	match sub {
 		"eval" => run_lines(evalcmd::handle),
 		"parse" => run_lines(parsecmd::handle),
+		"fmt" => run_lines(fmtcmd::handle),
 		"manifest" => run_lines(manifestcmd::handle),
 		"numop" => run_lines(numop::handle),
 		"imports" => run_lines(imports::handle),
